@@ -454,7 +454,7 @@ inline void Run(const Args& args, Result& res) {
             [&](int idx, int, WorkerBlock& blk, Result& local) {
                 QuietStdout quiet;
                 Engine e(local);
-                e.RepChecks(idx, th);
+                e.RepChecks(idx, true);
                 e.BlockChecks(idx, true);
                 e.FrameChecks(idx);
                 blk.evaluations = local.evaluations;
@@ -471,7 +471,8 @@ inline void Run(const Args& args, Result& res) {
                "program-visible counters (mov repc / mov lc inside the loop); bkrepsto;bkreprst at depth 0-4 through [sp] and [arrn]. "
                "All register-file fields except the loop-control registers and the multiset of data-memory writes must be equal; loop state "
                "must be clear on exit";
-    res.bound = th ? "full body product for 2- and 3-instruction blocks; rep count 65535 included" : "full body product for 2- and 3-instruction blocks; rep counts up to 256";
+    res.bound = "full body product for 2- and 3-instruction blocks; rep counts up to 65535";
+    (void)th;
     res.assumptions = {"every nesting level ends at its own address (two levels sharing one last instruction retire one level per fetch on this machine; toolchains pad it; left to C01)",
                        "rep: the repeated instruction observes repc after the decrement (N-1,...,0,0); bkrep: an instruction that is not the last of the block observes lc = N,...,0 (the end-of-block test runs when the last instruction is fetched)"};
     res.AddSample("rep #3 ; add [r0]+,a0   vs   4 x add [r0]+,a0");
